@@ -120,11 +120,13 @@ def updateBrokers (bs : List Broker) (md : List BrokerMd) : List Broker × List 
 def resize (ps : List Nat) (m : Nat) : List Nat :=
   if ps.length > m then ps.take m else ps ++ List.replicate (m - ps.length) UNKNOWN
 
-/-- the per-partition sync loop of `update_metadata`; `none` = index panic (`tps[partition.id as usize]`, state.rs:305) -/
+/-- the per-partition sync loop of `update_metadata`: a partition whose id is not an index of the partitions vector is
+    ignored (`tps.get_mut(id)`, state.rs:305); the result is always `some` (the type is kept from the time this was an
+    index panic) -/
 def syncParts (idx : List (Int × Nat)) : List PartitionMd → List Nat → Option (List Nat)
   | [], ps => some ps
   | p :: r, ps =>
-    if p.id < 0 ∨ p.id.toNat ≥ ps.length then none
+    if p.id < 0 ∨ p.id.toNat ≥ ps.length then syncParts idx r ps
     else syncParts idx r (ps.set p.id.toNat ((assocGet idx p.leader).getD UNKNOWN))
 
 /-- `update_metadata` (state.rs:271-314) -/
@@ -205,7 +207,7 @@ structure Env (σ : Type) where
   codecs : Codecs
   comp : Nat → Bytes → Bytes
   debug : Bool := true
-  depth : Nat := 64
+  depth : Nat := 16
 
 structure W (σ : Type) where
   world : σ
@@ -251,7 +253,9 @@ def recvReply (env : Env σ) (host : Bytes) : CM σ Bytes := fun w =>
   let (wd, r) := env.recv w.world host
   match r with
   | .ok b => ({ w with world := wd }, .ok b)
-  | .error e => ({ world := wd, client := { w.client with broken := w.client.broken ++ [host] } }, .err e)
+  -- a failed read marks the connection broken; a bad size field (a decoding error) does not
+  | .error .io => ({ world := wd, client := { w.client with broken := w.client.broken ++ [host] } }, .err .io)
+  | .error e => ({ w with world := wd }, .err e)
 
 def decodeWith {α} (d : Dec α) (bs : Bytes) : CM σ α :=
   match d bs with
@@ -509,7 +513,7 @@ def retrying {ς α : Type} (max : Nat) (step : M ς (Verdict α)) : Nat → Nat
 def coordinatorStep (env : Env σ) (group : Bytes) (req : GroupCoordinatorRequest) : CM σ (Verdict Bytes) := do
   let w ← M.get
   match env.pick w.world w.client.conns with
-  | none => M.panic "client/mod.rs:1489 expect available connection"
+  | none => M.fail .noHost        -- no pooled connection at all (`get_conn_any` = None; an `expect` before the repair)
   | some host => do
     -- `get_conn_any`: with a zero idle time-out, or after an I/O failure on it, the pooled connection is re-established first
     if w.client.cfg.idleTimeoutMs = 0 ∨ host ∈ w.client.broken then
